@@ -11,7 +11,7 @@ META = {
                  "generic-record -> item mapping of add_* and the item -> generic-record mapping of read_generic_* are inverse "
                  "(same item field and same block table for every generic field); R01.4 the time reference handed to "
                  "get_time_offset and add_time_offset has the same provenance; R01.5 address-event aggregation increments on "
-                 "hit and inserts 1 on miss; R01.6 no member is written/read under the key named after another member. R01.10: a record stored for every loop element is declared or wholly re-assigned inside the loop, or every member the loop sets is set unconditionally. R01.11: every CdnsBlock member that a method called from CdnsExporter::buffer_* can change is re-initialised by CdnsBlock::clear(). The R01.9 import of the array/map start table tolerates a flag that is only ever set when every library caller passes a flag that is false at the call. R01.12 (R12.4 imported): write_block() serialises, clears and re-arms the buffered block unconditionally, so records are written under the parameter set the application selected.",
+                 "hit and inserts 1 on miss; R01.6 no member is written/read under the key named after another member. R01.10: a record stored for every loop element is declared or wholly re-assigned inside the loop, or every member the loop sets is set unconditionally. R01.11: every CdnsBlock member that a method called from CdnsExporter::buffer_* can change is re-initialised by CdnsBlock::clear(). The R01.9 import of the array/map start table tolerates a flag that is only ever set when every library caller passes a flag that is false at the call. R01.12 (R12.4 imported): write_block() serialises, clears and re-arms the buffered block unconditionally, so records are written under the parameter set the application selected. R01.14 = R03.11: a pointer / iterator member that refers into a container of the same object is re-seated by every member function that can reallocate that container.",
     "explanation": "Static cross-check of sibling implementations (write/read, add/read_generic) and of the wire tables "
                    "against RFC 8618. Decides the structural part of C01 for all records and parameter sets; value equality "
                    "(tick arithmetic, integers over their range, byte strings) and record order are not decided.",
@@ -655,6 +655,10 @@ def check_block_state_cleared(run, rule):
 def check(run):
     from . import C08 as _C08
     _C08.check_tables_append(run, "R01.13")      # an independent writer may repeat a table value; indices must keep resolving
+    from . import C03 as _C03
+    # what the exporter re-arms a block with must still be the stored parameters: a pointer member into the preamble's own
+    # vector dies when add_block_parameters() lets the vector grow
+    _C03.check_member_pointers(run, "R01.14", floor=1)
     facts = run.facts
     check_fresh_records(run, "R01.10")
     check_block_state_cleared(run, "R01.11")
